@@ -91,6 +91,11 @@ DFilter == IF cfg.upd = "ident" THEN Filter(mem)
                    Filter([i \in 1..(Cardinality(keep) + 1) |->
                              IF i = Cardinality(keep) + 1 THEN Last(mem)
                              ELSE mem[CHOOSE k \in keep : Cardinality({j \in keep : j < k}) = i - 1]])
+DFilter0 == IF cfg.upd = "ident" THEN Filter0(mem)
+            ELSE \E keep \in SUBSET (1..(Len(mem) - 1)) :
+                    Filter0([i \in 1..(Cardinality(keep) + 1) |->
+                              IF i = Cardinality(keep) + 1 THEN Last(mem)
+                              ELSE mem[CHOOSE k \in keep : Cardinality({j \in keep : j < k}) = i - 1]])
 DMemUpdate == \E acc \in (IF Convex THEN {TRUE} ELSE BOOLEAN) :
                  MemUpdate(acc, Updated(mem, x, acc, cfg.maxcor))
 DCallback == IF cfg.cb /\ ~success
@@ -111,7 +116,7 @@ DPropagate == Propagate(TRUE)
 
 DNext == \/ DStart \/ DRestart \/ DEvalF0 \/ DStops \/ DEarly \/ DEvalG0 \/ DScale \/ DUpd0 \/ DMem0
          \/ DGuard \/ DLSBegin \/ DTrialF \/ DTrialG \/ DLSEnd \/ DAccF \/ DAccG \/ DUpd \/ DTests
-         \/ DFilter \/ DMemUpdate \/ DCallback \/ EndIter \/ DReturn \/ DRaise \/ DPropagate
+         \/ DFilter \/ DFilter0 \/ DMemUpdate \/ DCallback \/ EndIter \/ DReturn \/ DRaise \/ DPropagate
 
 DSpec == Init /\ [][DNext]_vars
 
